@@ -178,6 +178,8 @@ def build_file(unit_id, vspec, with_canaries=False):
             a, b = mk[0], mk[1]
             la = woven.count("\n", 0, a)
             lb = woven.count("\n", 0, b)
+            if b > a and woven[b - 1] == "\n":
+                lb -= 1
             # lines fully or partly made of inserted text
             for k in range(la, lb + 1):
                 ins_lines.add(first + k)
